@@ -51,6 +51,42 @@ def stmt_failure(method, pattern, frame, peaks, bc, upsample, ref=None, cf=None)
     return None
 
 
+def batch_failure(seed, method, dt, upsample):
+    """the batch entry points with more peaks than the default crop-buffer budget holds (several blocks), peak lists in random order, frames in a
+    wide dtype on a pedestal: the result of a peak is the one it gets in a list that fits one block / when it is processed alone"""
+    from libertem_blobfinder.common import correlation as cc, patterns as pat
+    r = np.random.default_rng(seed)
+    c = int(r.choice([24, 32]))
+    pattern = pat.RadialGradient(radius=float(r.choice([6.0, 10.0])), search=float(c))
+    per = int(blc.get_buf_count(c, 10 ** 6, np.dtype(np.result_type(np.dtype(dt), np.float32))))
+    n = per + int(r.integers(1, 6))
+    fy, fx = int(r.integers(2 * c + 40, 2 * c + 120)), int(r.integers(2 * c + 40, 2 * c + 120))
+    base = 10 ** 9 if dt in ('float64', 'int64') else 0
+    data = r.poisson(6.0, size=(2, fy, fx)).astype(np.int64)
+    grid = [(y, x) for y in range(c, fy - c, max(1, (fy - 2 * c) // 8)) for x in range(c, fx - c, max(1, (fx - 2 * c) // 8))]
+    peaks = np.array([grid[i] for i in r.permutation(len(grid))[:n]])
+    for (py, px) in peaks:
+        data[:, py - 2:py + 3, px - 2:px + 3] += 40
+    frames = (data + base).astype(dt)
+    fn = cc.process_frames_fast if method == 'fast' else cc.process_frames_full
+    try:
+        whole = fn(pattern, frames, peaks, upsample=upsample)
+        k = int(r.integers(1, min(per, n) + 1))
+        part = fn(pattern, frames, peaks[:k], upsample=upsample)          # a prefix that fits one block
+        last = fn(pattern, frames, peaks[n - 1:n], upsample=upsample)      # the last peak alone
+    except Exception as e:  # noqa
+        return 'process_frames_%s raised %s: %s' % (method, type(e).__name__, e)
+    sc = float(np.abs(part[2]).max()) + 1.0
+    for name, sub, sl in (('the first %d peaks alone (one block)' % k, part, slice(0, k)), ('the last peak alone', last, slice(n - 1, n))):
+        got = tuple(w[:, sl] for w in whole)
+        if not cl.results_close(tuple(g[0] for g in got), tuple(s_[0] for s_ in sub), rtol=1e-5, scale=sc) or not cl.results_close(tuple(g[1] for g in got), tuple(s_[1] for s_ in sub), rtol=1e-5, scale=sc):
+            j = int(np.argmax(np.abs(got[1].astype(float) - sub[1].astype(float)).max(axis=(0, 2))))
+            return ('process_frames_%s (%s frames%s, crop size %d, upsample=%s): %d peaks in random order (more than the %d crop buffers of the default budget) vs %s: peak %s gets centre %s / refined %s, '
+                    'otherwise centre %s / refined %s' % (method, dt, ' on a pedestal of 1e9' if base else '', c, upsample, n, per, name, peaks[sl][j].tolist(), got[0][0][j].tolist(), got[1][0][j].tolist(),
+                                                         sub[0][0][j].tolist(), sub[1][0][j].tolist()))
+    return None
+
+
 def mk_replay(desc, frame, peaks, method, bc, upsample, fail, cf=None):
     return {'kind': 'input', 'call': 'process_frame_%s' % method,
             'args': {'pattern': desc, 'frame': np.asarray(frame, dtype=np.float64).tolist(), 'peaks': [list(map(int, p)) for p in peaks],
@@ -70,6 +106,13 @@ def replay(body):
         if not ok:
             print('VIOLATION property=C08 replay=(given)')
         return 0 if ok else 1
+    if 'batch_seed' in a:
+        fail = batch_failure(a['batch_seed'], a['method'], a['dtype'], a['upsample'])
+        print(json.dumps({'failure_now': fail}, indent=1))
+        if fail:
+            print('VIOLATION property=C08 replay=(given)')
+            return 1
+        return 0
     pattern = cl.pattern_from_desc(a['pattern'])
     frame = np.array(a['frame'], dtype=np.float32)
     fail = stmt_failure(a['method'], pattern, frame, a['peaks'], a['buffer_count'], a['upsample'], cf=a.get('crop_function'))
@@ -203,6 +246,17 @@ def run(ctx):
             if found:
                 break
         if found:
+            break
+    # (S) batch entry points beyond the default crop-buffer budget
+    for k in range(ctx.n(8, 60)):
+        sd = int(rng.integers(0, 2 ** 31))
+        method, dt, ups = ['fast', 'full'][k % 2], ['float64', 'float32', 'int64', 'uint16'][(k // 2) % 4], [False, 4][(k // 8) % 2]
+        fail = batch_failure(sd, method, dt, ups)
+        nruns += 3
+        ctx.hist('batch beyond the buffer budget', '%s/%s' % (method, dt))
+        if fail:
+            ctx.violation('input', 'result depends on the number of peaks / buffer budget: ' + fail, {'kind': 'input', 'call': 'process_frames_%s' % method,
+                          'args': {'batch_seed': sd, 'method': method, 'dtype': dt, 'upsample': ups}, 'failure': fail})
             break
     ctx.count(nruns)
     ctx.extra['oracle_runs'] = nruns
